@@ -153,6 +153,33 @@ def correspondences(tier, rng):
             return "the interpreter raised %r on %r" % (e, outc)
         return None if G.fill_canon(a_) == G.fill_canon(b_) else "specialised %r draws %r, generalised draws %r" % (outc, b_, a_)
     out.append(Corr("specialize", scases, impl_spec, oracle=oracle_spec))
+    # ---- generalizeFirst=True on lists of arbitrary path commands (every operator, legal and illegal argument counts)
+    def gen_cmds():
+        Zv = lambda: rng.choice([0, 0, 0, 1, -1, 3, -4, 20, rng.randint(-300, 300)])
+        cmds = []
+        for _ in range(rng.randint(1, 7)):
+            op_i = rng.below(len(OPS))
+            op = OPS[op_i]
+            if rng.chance(8): k = rng.randint(0, 14)                     # possibly illegal
+            elif op == "rmoveto": k = 2
+            elif op in ("hmoveto", "vmoveto"): k = 1
+            elif op == "rlineto": k = 2 * rng.randint(1, 4)
+            elif op in ("hlineto", "vlineto"): k = rng.randint(1, 6)
+            elif op == "rrcurveto": k = 6 * rng.randint(1, 3)
+            elif op in ("hhcurveto", "vvcurveto"): k = 4 * rng.randint(1, 3) + rng.below(2)
+            elif op in ("hvcurveto", "vhcurveto"): k = 4 * rng.randint(1, 4) + rng.below(2)
+            elif op == "rcurveline": k = 6 * rng.randint(1, 2) + 2
+            else: k = 2 * rng.randint(1, 3) + 6
+            cmds.append((op_i, [Zv() for _ in range(k)]))
+        return cmds
+    ccases = [(rng.chance(35), rng.choice([0, 7, 13, 20, 48, 48, 513]), gen_cmds()) for _ in range(N(tier, 2000, 30000))]
+    def impl_speccmd(x):
+        pt, ms, cmds = x
+        def go():
+            outc = specializeCommands([(OPS[o], list(a)) for o, a in cmds], generalizeFirst=True, preserveTopology=pt, maxstack=ms)
+            return [(SOPS[o], [int(v) for v in a]) for o, a in outc]
+        return res(go)
+    out.append(Corr("specialize_commands", ccases, impl_speccmd))
     return out
 
 def gen_program(rng, width=True):
